@@ -38,6 +38,7 @@
 #include "jet_random.h"
 #include "log.h"
 #include "url_handler.h"
+#include "alloc.h"
 #include "websocket.h"
 
 /* ------------------------------------------------------------------ output */
@@ -661,6 +662,14 @@ int main(void)
 		} else if (strncmp(line, "use ", 4) == 0) {
 			use_slot((unsigned)strtoul(line + 4, NULL, 10));
 			ev_simple("using", NULL);
+		} else if (strcmp(line, "heap") == 0) {
+			/* every connection of the process is ended, then: what the daemon's allocator still accounts */
+			for (unsigned k = 0; k < SLOTS; k++) {
+				use_slot(k);
+				shutdown_conn();
+			}
+			printf("{\"ev\":\"heap\",\"bytes\":%zu}\n", cjet_get_alloc_size());
+			fflush(stdout);
 		} else if (strcmp(line, "state") == 0) {
 			cmd_state();
 		} else if (strcmp(line, "shutdown") == 0) {
